@@ -1328,6 +1328,61 @@ FUNCTIONS += [
          stmt_rules=EL_COMMON['stmt_rules'] + [(r'^std::advance\(it, size - num_values\)$', 'it := it.drop (size - num_values)')]),
 ]
 
+# range_is / range_starts_with / range_ends_with / range_all_of / range_none_of / range_any_of given a container or one
+# matcher (C11): one standard algorithm over the range with a lambda that matches a member against a matcher.  The
+# lambda is read — whatever its parameters are called — as `fun params => accepts <first argument> <second argument>`
+# of its `param_matches(c, std::ref(v))`; a swapped pair of arguments no longer type-checks in the generated Lean.
+# std::equal / std::mismatch (four-iterator forms) are read as Range.equal4 / Range.mismatch, std::all_of / any_of /
+# none_of as List.all / List.any: that reading of the standard algorithms is part of the trusted base.
+RC_LAM2 = (r'\[&?\]\(const auto\s*&\s*(\w+),\s*const auto\s*&\s*(\w+)\)\s*\{\s*return trompeloeil::param_matches\((\w+),\s*std::ref\((\w+)\)\);\s*\}',
+           r'LAM2(\1, \2, \3, \4)')
+RC_LAM1 = (r'\[&?\]\(const auto\s*&\s*(\w+)\)\s*\{\s*return trompeloeil::param_matches\((\w+),\s*std::ref\((\w+)\)\);\s*\}',
+           r'LAM1(\1, \2, \3)')
+RC_PRE = EL_PRE + [RC_LAM2, RC_LAM1]
+RC_L2 = r'LAM2\((\w+), (\w+), (\w+), (\w+)\)'
+RC_F2 = r'(fun (\2 : μ) (\1 : α) => accepts \3 \4)'
+RC_ONE = dict(
+    lean_sig='{α μ : Type} (accepts : μ → α → Bool) (range : List α) (comp : μ) : Bool',
+    vars={'range': 'range', 'comp': 'comp'}, pre=RC_PRE, no_respell=True,
+    decl_rules=[(r'^auto it = range$', 'let it : List α := range')],
+)
+
+FUNCTIONS += [
+    dict(base='Range', name='is_range', cxx='impl::is_range_checker::operator()', file=RANGE, module='IsRange',
+         header=r'struct is_range_checker\s*\{\s*template <typename R, typename C>\s*bool operator\(\)\(const R& r, const C& cs\) const',
+         lean_sig='{α μ : Type} (accepts : μ → α → Bool) (r : List α) (cs : List μ) : Bool',
+         vars={'r': 'r', 'cs': 'cs'}, pre=RC_PRE, no_respell=True,
+         ret_rules=[(r'^std::equal\(begin\(r\), end\(r\), begin\(cs\), end\(cs\), ' + RC_L2 + r'\)$', r'Range.equal4 ' + RC_F2 + ' r cs')]),
+    dict(RC_ONE, name='range_all_of', cxx='impl::range_all_of_checker::operator()', file=RANGE, module='RangeAllOf',
+         header=r'struct range_all_of_checker\s*\{\s*template <typename R, typename C>\s*bool operator\(\)\(const R& range, const C& comp\) const',
+         ret_rules=[(r'^std::all_of\(it, e, LAM1\((\w+), (\w+), (\w+)\)\)$', r'it.all (fun (\1 : α) => accepts \2 \3)')]),
+    dict(RC_ONE, name='range_none_of', cxx='impl::range_none_of_checker::operator()', file=RANGE, module='RangeNoneOf',
+         header=r'struct range_none_of_checker\s*\{\s*template <typename R, typename C>\s*bool operator\(\)\(const R& range, const C& comp\) const',
+         ret_rules=[(r'^std::none_of\(it, e, LAM1\((\w+), (\w+), (\w+)\)\)$', r'(!it.any (fun (\1 : α) => accepts \2 \3))')]),
+    dict(RC_ONE, name='range_any_of', cxx='impl::range_any_of_checker::operator()', file=RANGE, module='RangeAnyOf',
+         header=r'struct range_any_of_checker\s*\{\s*template <typename R, typename C>\s*bool operator\(\)\(const R& range, const C& comp\) const',
+         ret_rules=[(r'^std::any_of\(it, e, LAM1\((\w+), (\w+), (\w+)\)\)$', r'it.any (fun (\1 : α) => accepts \2 \3)')]),
+    dict(base='Range', name='starts_with_range', cxx='impl::starts_with_range_checker::operator()', file=RANGE, module='StartsWithRange',
+         header=r'struct starts_with_range_checker\s*\{\s*template <typename R, typename E>\s*bool operator\(\)\(const R& range, const E& elements\) const',
+         lean_sig='{α μ : Type} (accepts : μ → α → Bool) (range : List α) (elements : List μ) : Bool',
+         vars={'range': 'range', 'elements': 'elements'}, pre=RC_PRE, no_respell=True,
+         decl_rules=[(r'^auto result = std::mismatch\(begin\(range\), end\(range\), begin\(elements\), end\(elements\), ' + RC_L2 + r'\)$',
+                      r'let result := Range.mismatch ' + RC_F2 + ' range elements')],
+         ret_rules=[(r'^result\.second == (?:end\(elements\)|elements\.end\(\))$', 'result.2.isEmpty')]),
+    dict(base='Range', name='ends_with_range', cxx='impl::ends_with_range_checker::operator()', file=RANGE, module='EndsWithRange',
+         header=r'struct ends_with_range_checker\s*\{\s*template <typename R, typename E>\s*bool operator\(\)\(const R &range, const E& elements\) const',
+         lean_sig='{α μ : Type} (accepts : μ → α → Bool) (range : List α) (elements : List μ) : Bool',
+         vars={'range': 'range', 'elements': 'elements'}, no_respell=True,
+         pre=RC_PRE + [(r'static_cast<ptrdiff_t>\(elements\.size\(\)\)', 'NUM_ELEMENTS'), (r'std::distance\(it, e\)', 'REMAINING')],
+         decl_rules=[(r'^auto it = range$', 'let mut it : List α := range'),
+                     (r'^const auto num_values = NUM_ELEMENTS$', 'let num_values := elements.length'),
+                     (r'^const auto size = REMAINING$', 'let size := it.length'),
+                     (r'^auto result = std::mismatch\(it, e, begin\(elements\), end\(elements\), ' + RC_L2 + r'\)$',
+                      r'let result := Range.mismatch ' + RC_F2 + ' it elements')],
+         stmt_rules=[(r'^std::advance\(it, size - num_values\)$', 'it := it.drop (size - num_values)')],
+         ret_rules=[(r'^result\.second == (?:end\(elements\)|elements\.end\(\))$', 'result.2.isEmpty')]),
+]
+
 # ----------------------------------------------------------------------------------------------
 # the RETURN path (C08): return_handler_t::call -> trace_return<Ret>(agent, func, params) -> func(params), once
 
